@@ -134,8 +134,11 @@ def cos(x):
         return _mk(type(x), S.NAN)
     ex, t, new, prev = _apply("cos", x.v)
     if new:
+        c_half = S.lift_num(math.cos(math.pi / 2))
         ax = [t >= -1, t <= 1, z3.Implies(x.v == 0, t == 1), z3.Implies(x.v == PI, t == -1),
-              z3.Implies(x.v == HALF_PI, t == S.lift_num(math.cos(math.pi / 2)))]
+              z3.Implies(x.v == HALF_PI, t == c_half),
+              z3.Implies(z3.And(x.v > 0, x.v <= PI), t < 1), z3.Implies(z3.And(x.v >= 0, x.v < PI), t > -1),
+              z3.Implies(z3.And(x.v >= 0, x.v < HALF_PI), t > c_half), z3.Implies(z3.And(x.v > HALF_PI, x.v <= PI), t < c_half)]
         for (p,) in prev:
             tp = _UF["cos"](p)
             ax.append(z3.Implies(z3.And(0 <= p, p < x.v, x.v <= PI), tp > t))
